@@ -34,6 +34,9 @@ type stepJ struct {
 	Op  string      `json:"op"`
 	In  interface{} `json:"in"`
 	Out interface{} `json:"out"`
+	// Env counts the harness-side mutations of the store (kubelet, users, commands) so far: two steps
+	// with the same value have only controller writes between them (the L3 transition check)
+	Env int `json:"env"`
 }
 
 // scenario is a running simulation of one ExtendedDaemonSet (plus optional neighbours).
@@ -119,7 +122,7 @@ func (s *scenario) recEDS(ns, name string, faults map[int]string) {
 	if ns == s.ns && name == s.name {
 		s.lastEdsKind = out.Kind
 	}
-	s.steps = append(s.steps, stepJ{"eds_reconcile", fmt.Sprintf("recEDS %s/%s", ns, name), in, out})
+	s.steps = append(s.steps, stepJ{"eds_reconcile", fmt.Sprintf("recEDS %s/%s", ns, name), in, out, w.envOps})
 	s.ops = append(s.ops, fmt.Sprintf("recEDS %s/%s -> %v", ns, name, out.Order))
 	s.countWrites()
 }
@@ -152,7 +155,7 @@ func (s *scenario) recERS(ns, edsName, rsName string, faults map[int]string) {
 		in["crashed"] = true
 		s.ops = append(s.ops, fmt.Sprintf("recERS %s/%s: process stopped during this reconcile", ns, rsName))
 	}
-	s.steps = append(s.steps, stepJ{"ers_reconcile", fmt.Sprintf("recERS %s/%s", ns, rsName), in, out})
+	s.steps = append(s.steps, stepJ{"ers_reconcile", fmt.Sprintf("recERS %s/%s", ns, rsName), in, out, w.envOps})
 	s.ops = append(s.ops, fmt.Sprintf("recERS %s/%s -> %d creates %d deletes", ns, rsName, len(out.Creates), len(out.Deleted)))
 	s.countWrites()
 }
@@ -481,6 +484,6 @@ func (sc *scenario) converge() (rounds, quietRounds int) {
 	}
 	v := sc.w.view(sc.ns, sc.name)
 	sc.steps = append(sc.steps, stepJ{"quiescent", "final", map[string]interface{}{"view": v, "ns": sc.ns, "eds": sc.name},
-		map[string]interface{}{"rounds": rounds, "converged": quietRounds >= 3, "maxRounds": maxRounds, "lastEdsKind": sc.lastEdsKind}})
+		map[string]interface{}{"rounds": rounds, "converged": quietRounds >= 3, "maxRounds": maxRounds, "lastEdsKind": sc.lastEdsKind}, sc.w.envOps})
 	return rounds, quietRounds
 }
